@@ -628,6 +628,7 @@ func TestVerifC14Prim(t *testing.T) {
 			vC14CaseVerifyDS(tr, r)
 		}
 	}
+	vC14KeyTagColumns(tr, r, os.Getenv("VERIF_TIER") == "thorough")
 }
 
 // ---- base64
@@ -757,6 +758,53 @@ func vC14Flags(r *rand.Rand) uint16 {
 	return []uint16{256, 257}[r.Intn(2)]
 }
 
+// vC14WrapAt breaks s into lines of width characters, the way key files and
+// zone files wrap a key (every line but possibly the last ends in br).
+func vC14WrapAt(s string, width int, br string, trailing bool) string {
+	var b strings.Builder
+	for i := 0; i < len(s); i += width {
+		e := min(i+width, len(s))
+		b.WriteString(s[i:e])
+		if e < len(s) || trailing {
+			b.WriteString(br)
+		}
+	}
+	return b.String()
+}
+
+// vC14KeyTagColumns is a sweep rather than a sample: keys longer than one
+// 256-character chunk, wrapped at every column width from 8 to 130 with LF and
+// with CRLF, the algorithm number walking through all 256 values.  Where the
+// breaks fall relative to the chunk boundaries (and so how many octets a
+// non-final chunk decodes to) depends on width and line ending only, so every
+// residue is met on every run.
+func vC14KeyTagColumns(tr *vC14Trace, r *rand.Rand, thorough bool) {
+	lengths := 1
+	if thorough {
+		lengths = 4
+	}
+	alg := r.Intn(256)
+	for width := 8; width <= 130; width++ {
+		for bi, br := range []string{"\n", "\r\n"} {
+			for l := 0; l < lengths; l++ {
+				n := 193 + r.Intn(300)
+				switch l {
+				case 1:
+					n = 600 + r.Intn(600)
+				case 2:
+					n = []int{192 * 2, 192 * 3, 192*2 + 1, 192*3 - 1, 4090, 4092}[r.Intn(6)]
+				case 3:
+					n = 1200 + r.Intn(2800)
+				}
+				pk := vC14WrapAt(base64.StdEncoding.EncodeToString(vC14RandBytes(r, n)), width, br, r.Intn(2) == 0)
+				alg = (alg + 7) % 256
+				k := &dns.DNSKEY{Hdr: dns.RR_Header{Name: "example.", Rrtype: dns.TypeDNSKEY, Class: dns.ClassINET}, Flags: vC14Flags(r), Protocol: 3, Algorithm: uint8(alg), PublicKey: pk}
+				vC14EmitKeyTag(tr, k, "columns-"+[]string{"lf", "crlf"}[bi], map[string]any{"width": width, "octets": n})
+			}
+		}
+	}
+}
+
 func vC14CaseKeyTag(tr *vC14Trace, r *rand.Rand) {
 	pk, shape := vC14GenKeyMaterial(r)
 	k := &dns.DNSKEY{Hdr: dns.RR_Header{Name: "example.", Rrtype: dns.TypeDNSKEY, Class: dns.ClassINET}, Flags: vC14Flags(r), Protocol: 3, Algorithm: vC14Alg(r), PublicKey: pk}
@@ -774,6 +822,11 @@ func vC14CaseKeyTag(tr *vC14Trace, r *rand.Rand) {
 			k.PublicKey = vC14Mangle(r, k.PublicKey)
 		}
 	}
+	vC14EmitKeyTag(tr, k, shape, nil)
+}
+
+// vC14EmitKeyTag runs KeyTag and the library on k and records the case.
+func vC14EmitKeyTag(tr *vC14Trace, k *dns.DNSKEY, shape string, extra map[string]any) {
 	var got uint16
 	fail := ""
 	if p := vC14Guard(func() { got = KeyTag(k) }); p != "" {
@@ -792,8 +845,11 @@ func vC14CaseKeyTag(tr *vC14Trace, r *rand.Rand) {
 	if k.Algorithm == dns.RSAMD5 {
 		kind = "keytag-rsamd5"
 	}
-	tr.emit(kind, fmt.Sprintf("CaseKeyTag %d %d %d %s %d %s", k.Flags, k.Protocol, k.Algorithm, vC14Str(k.PublicKey), got, vC14OptN(lib, libPanic)), fail,
-		true, map[string]any{"flags": k.Flags, "protocol": k.Protocol, "alg": k.Algorithm, "key_len": len(k.PublicKey), "shape": shape, "sdns": got, "lib": lib, "lib_panicked": libPanic})
+	desc := map[string]any{"flags": k.Flags, "protocol": k.Protocol, "alg": k.Algorithm, "key_len": len(k.PublicKey), "shape": shape, "sdns": got, "lib": lib, "lib_panicked": libPanic}
+	for key, v := range extra {
+		desc[key] = v
+	}
+	tr.emit(kind, fmt.Sprintf("CaseKeyTag %d %d %d %s %d %s", k.Flags, k.Protocol, k.Algorithm, vC14Str(k.PublicKey), got, vC14OptN(lib, libPanic)), fail, true, desc)
 }
 
 // ---- RFC 3110 parsing
